@@ -378,6 +378,15 @@ func (it *k4interp) lookup(key string, t types.Type) (k4val, error) {
 			return k4val{kind: 2, f: 0}, nil
 		}
 	}
+	if isSnapshotKey(key) {
+		// a field of a copied local aggregate that was never assigned: zero value
+		if isBoolT(t) {
+			return k4val{kind: 1, b: false}, nil
+		}
+		if isNumeric(t) {
+			return k4val{kind: 2, f: 0}, nil
+		}
+	}
 	if strings.HasPrefix(key, "L") && strings.Contains(key, ":") && !strings.Contains(key, "$") {
 		// never-written local: zero value
 		if isBoolT(t) {
@@ -1349,4 +1358,16 @@ func (it *k4interp) onStack(f *ssa.Function) bool {
 		}
 	}
 	return false
+}
+
+// isSnapshotKey: "S<digits>." or "S<digits>[" — a sub-entry of a snapshot of a local aggregate
+func isSnapshotKey(k string) bool {
+	if len(k) < 3 || k[0] != 'S' {
+		return false
+	}
+	i := 1
+	for i < len(k) && k[i] >= '0' && k[i] <= '9' {
+		i++
+	}
+	return i > 1 && i < len(k) && (k[i] == '.' || k[i] == '[')
 }
